@@ -55,6 +55,9 @@ func c18RandOp(rng *rand.Rand, nwin int, big bool) string {
 			}
 			return "ser:" + strings.Join(ls, "|")
 		}
+		if rng.Intn(3) == 0 {
+			return fmt.Sprintf("oth:%d", rng.Intn(200))
+		}
 		return fmt.Sprintf("push:%d", rng.Intn(200))
 	default:
 		if nwin == 0 {
@@ -75,7 +78,7 @@ func (c18) Gen(rng *rand.Rand, tier string) []Case {
 	if tier == "thorough" {
 		exd = 5
 	}
-	small := []string{"pre:1,aa", "pre:3,b1b2b3", "app:2,c1c2", "app:8,d1d2d3d4d5d6d7d8", "clr", "wr:1,0,238", "pre:2,", "push:7", "ser:", "ser:5.e1e2|6.|7.f1"}
+	small := []string{"pre:1,aa", "pre:3,b1b2b3", "app:2,c1c2", "app:8,d1d2d3d4d5d6d7d8", "clr", "wr:1,0,238", "pre:2,", "push:7", "ser:", "ser:5.e1e2|6.|7.f1", "oth:9"}
 	for _, hint := range [][2]int{{0, 0}, {1, 0}, {2, 3}} {
 		var rec func(prefix []string, d int)
 		rec = func(prefix []string, d int) {
@@ -131,6 +134,8 @@ type c18win struct {
 func (c18) Run(c Case) Result {
 	var res Result
 	var buf gopacket.SerializeBuffer = gopacket.NewSerializeBuffer()
+	other := gopacket.NewSerializeBuffer() // a second buffer alive for the whole case (op oth)
+	var wantLayers []int                   // layers recorded in buf since its last Clear, per the contract
 	var wins []c18win // most recent last
 	// implementation-side oracle: the tape (position-ordered list of cells, -1 = indeterminate)
 	var tape []int
@@ -152,6 +157,7 @@ func (c18) Run(c Case) Result {
 			}()
 			switch name {
 			case "new":
+				wantLayers = nil
 				p, _ := strconv.Atoi(args[0])
 				a, _ := strconv.Atoi(args[1])
 				if p == 0 && a == 0 {
@@ -209,6 +215,7 @@ func (c18) Run(c Case) Result {
 					res.Oracle = append(res.Oracle, fmt.Sprintf("window-length\twant %d got %d", n, len(s)))
 				}
 			case "clr":
+				wantLayers = nil
 				buf.Clear()
 				epoch++
 				tape = nil
@@ -229,11 +236,17 @@ func (c18) Run(c Case) Result {
 						wantTypes = append(wantTypes, strconv.Itoa(int(sls[i].LayerType())))
 					}
 				}
+				// the same slice is passed twice: the helper must not alter the caller's slice
+				gopacket.SerializeLayers(buf, gopacket.SerializeOptions{}, sls...)
 				err := gopacket.SerializeLayers(buf, gopacket.SerializeOptions{}, sls...)
 				epoch++
 				tape = nil
 				for _, b := range wantBytes {
 					tape = append(tape, int(b))
+				}
+				wantLayers = nil
+				for i := len(sls) - 1; i >= 0; i-- {
+					wantLayers = append(wantLayers, int(sls[i].LayerType()))
 				}
 				twins = nil // windows handed to the layers are not tracked by the harness
 				wins = nil
@@ -252,9 +265,18 @@ func (c18) Run(c Case) Result {
 					res.Oracle = append(res.Oracle, fmt.Sprintf("stack\tafter %s: Bytes() = %x, want outermost first %x", op, buf.Bytes(), wantBytes))
 				}
 				tags["stack"] = true
+			case "oth":
+				// activity on ANOTHER buffer that is alive at the same time must not show in this one
+				t, _ := strconv.Atoi(args[0])
+				other.PushLayer(gopacket.LayerType(t))
+				if t%3 == 0 {
+					gopacket.SerializeLayers(other, gopacket.SerializeOptions{}, c18Layer{t: gopacket.LayerType(t), hdr: []byte{1, 2, 3}}, c18Layer{t: gopacket.LayerType(t + 1), hdr: []byte{4}})
+				}
+				tags["other-buffer"] = true
 			case "push":
 				t, _ := strconv.Atoi(args[0])
 				buf.PushLayer(gopacket.LayerType(t))
+				wantLayers = append(wantLayers, t)
 			case "wr":
 				k, _ := strconv.Atoi(args[0])
 				i, _ := strconv.Atoi(args[1])
@@ -311,6 +333,15 @@ func (c18) Run(c Case) Result {
 					res.Oracle = append(res.Oracle, fmt.Sprintf("written-cell\tafter %s: cell %d want %d got %d", op, i, cv, b[i]))
 					break
 				}
+			}
+		}
+		{ // the recorded layers are exactly those pushed into THIS buffer since its last Clear
+			var got []int
+			for _, l := range buf.Layers() {
+				got = append(got, int(l))
+			}
+			if fmt.Sprint(got) != fmt.Sprint(wantLayers) {
+				res.Oracle = append(res.Oracle, fmt.Sprintf("layers\tafter %s: Layers() = %v, want %v", op, got, wantLayers))
 			}
 		}
 		if name == "clr" && (len(b) != 0 || len(buf.Layers()) != 0) {
